@@ -125,16 +125,38 @@ fn test_stale(case: &StaleCase, st: &mut Stats, counting: bool) -> CaseResult {
         }
         trace.push("drop handle".into());
         drop(h);
-        // the filesystem stays usable
-        let _ = root.exists();
-        let _ = crate::observe::snapshot(&root);
+        // the filesystem stays usable: re-create and remove around the place the handle wrote to
+        // (a stale handle may have re-published its file below a removed directory)
+        let follow: [Op; 9] = [
+            Op::CreateDirAll("/d/s".into()),
+            Op::ReadDir("/d/s".into()),
+            Op::RemoveFile("/d/s/f".into()),
+            Op::CreateFile("/d/s/f".into(), std::sync::Arc::new(b"again".to_vec())),
+            Op::Append("/d/s/f".into(), std::sync::Arc::new(b"!".to_vec())),
+            Op::Metadata("/d/s".into()),
+            Op::RemoveDirAll("/d".into()),
+            Op::CreateDir("/d".into()),
+            Op::WalkDir(String::new()),
+        ];
+        let start = (case.removal as usize / 4) % follow.len();
+        for i in 0..follow.len() {
+            let op = &follow[(start + i * (1 + case.writer as usize % 2)) % follow.len()];
+            let out = exec(&root, op);
+            trace.push(format!("{} -> {}", op.render(), out.class_str()));
+            if let Outcome::Panic(m) = out {
+                return Err(format!("{} panicked after a stale handle was dropped: {}", op.render(), m));
+            }
+        }
+        let s = crate::observe::snapshot(&root);
+        if let Some(p) = s.problems.iter().find(|p| p.starts_with("PANIC")) {
+            return Err(p.clone());
+        }
         Ok(())
     });
+    let rep = json!({"kind": "c13-stale", "cfg": case.cfg.to_json(), "writer": case.writer, "removal": case.removal, "data": data_to_json(&case.data), "uses": case.uses});
     match r {
-        Err(p) => Err(Failure {
-            message: format!("stack {}: PANIC while using a handle after removal: {}\n    {}", case.cfg.render(), p, trace.join("\n    ")),
-            replay: json!({"kind": "c13-stale", "cfg": case.cfg.to_json(), "writer": case.writer, "removal": case.removal, "data": data_to_json(&case.data), "uses": case.uses}),
-        }),
+        Err(p) => Err(Failure { message: format!("stack {}: PANIC while using a handle after removal: {}\n    {}", case.cfg.render(), p, trace.join("\n    ")), replay: rep }),
+        Ok(Err(m)) if m.contains("panicked") || m.contains("PANIC") => Err(Failure { message: format!("stack {}: {}\n    {}", case.cfg.render(), m, trace.join("\n    ")), replay: rep }),
         Ok(_) => {
             if counting {
                 st.label("stale_handle_cases");
